@@ -347,4 +347,282 @@ Proof.
   destruct HR. constructor; auto.
 Qed.
 
+
+(* CUP *)
+Lemma cup_fin_eq R C : -1 <= R -> -1 <= C ->
+  TR.cup_fin (T.set_cursor (T.set_last t false) R C)
+  = T.set_cursor (T.set_last t false) (clampz 0 (h - 1) R) (clampz 0 (w - 1) C).
+Proof.
+  intros HR0 HC0.
+  pose proof (TP.WFs_height e w h t HW) as Hh. pose proof (TP.WFs_width e w h t HW) as Hw.
+  unfold TR.cup_fin; cbv zeta.
+  change (T.width (T.set_cursor (T.set_last t false) R C)) with (T.width t). rewrite Hw.
+  cbn [T.t_col T.t_row T.set_cursor].
+  assert (E : forall b : bool, (if b then T.set_col (T.set_cursor (T.set_last t false) R C) (w - 1) else T.set_cursor (T.set_last t false) R C)
+           = T.set_cursor (T.set_last t false) R (if b then w - 1 else C)) by (intros []; reflexivity).
+  rewrite E. change (T.height (T.set_cursor (T.set_last t false) R (if C >? w - 1 then w - 1 else C))) with (T.height t). rewrite Hh.
+  cbn [T.t_col T.t_row T.set_cursor].
+  set (C1 := if C >? w - 1 then w - 1 else C).
+  assert (E2 : forall b : bool, (if b then T.set_row (T.set_cursor (T.set_last t false) R C1) (h - 1) else T.set_cursor (T.set_last t false) R C1)
+           = T.set_cursor (T.set_last t false) (if b then h - 1 else R) C1) by (intros []; reflexivity).
+  rewrite E2. cbn [T.t_col T.t_row T.set_cursor].
+  set (R1 := if R >? h - 1 then h - 1 else R).
+  assert (E3 : forall b : bool, (if b then T.set_col (T.set_cursor (T.set_last t false) R1 C1) 0 else T.set_cursor (T.set_last t false) R1 C1)
+           = T.set_cursor (T.set_last t false) R1 (if b then 0 else C1)) by (intros []; reflexivity).
+  rewrite E3. cbn [T.t_col T.t_row T.set_cursor].
+  set (C2 := if C1 <? 0 then 0 else C1).
+  assert (E4 : forall b : bool, (if b then T.set_row (T.set_cursor (T.set_last t false) R1 C2) 0 else T.set_cursor (T.set_last t false) R1 C2)
+           = T.set_cursor (T.set_last t false) (if b then 0 else R1) C2) by (intros []; reflexivity).
+  rewrite E4.
+  destruct HW as [Hw1 Hh1 _ _ _ _ _ _ _ _ _ _ _ _ _].
+  f_equal; unfold C2, C1, R1, clampz; repeat case_if; lia.
+Qed.
+
+Lemma step_cup row col : small row = true -> small col = true ->
+  okstep e w h (emu_toks tw t [KCup row col]) (interp1 tw r (KCup row col)).
+Proof.
+  intros Hr Hc. unfold small in *. destruct dims as [Dr Dc].
+  unfold emu_toks. cbn [flat_map enc_tok app interp1 emu_feed].
+  change (T.update t (T.TCsi [] [[row]; [col]] 72)) with (T.cup t [[row]; [col]]).
+  rewrite TR.cup_eval2, !TR.i64_id, cup_fin_eq by lia. cbn [T.tbind].
+  assert (B1 : 0 <= clampz 0 (h - 1) (row - 1) < h) by (destruct HW; unfold clampz; lia).
+  assert (B2 : 0 <= clampz 0 (w - 1) (col - 1) < w) by (destruct HW; unfold clampz; lia).
+  eexists; split; [reflexivity|]. split; [apply TP.WFs_set_cursor; auto; now apply TP.WFs_set_last|].
+  split; [eapply vaxis_modes_frame; try exact HM; reflexivity|].
+  destruct HR as [A1 A2 A3 A4 A5 A6 A7 A8]. rewrite Dr, Dc.
+  constructor; auto; cbn [T.t_row T.t_col T.t_last T.set_cursor T.set_last tm_row tm_col tm_cols set_cur].
+  left. rewrite Dc. repeat split; lia.
+Qed.
+
+
+(* text that fits before the right edge: no wrap, the glyph and the spaces after it *)
+Lemma print_fit g k :
+  T.t_last t = false -> 1 <= k -> T.t_col t + k <= w ->
+  exists line lb,
+    zget (T.active t) (T.t_row t) = Some line /\ TP.row_ok w lb /\
+    (forall i, zget lb i = if i =? T.t_col t then Some (T.mkCell g k (T.t_pen t) false)
+                           else if (T.t_col t <? i) && (i <? T.t_col t + k) then zget lb i
+                           else zget line i) /\
+    let t5 := T.set_active t (upd_nat (T.active t) (Z.to_nat (T.t_row t)) lb) in
+    T.print t g k = T.TOk (if T.t_col t + k >=? w
+                           then T.set_col (T.set_last (T.set_col t5 (T.t_col t + k)) true) (w - 1)
+                           else T.set_col t5 (T.t_col t + k)).
+Proof.
+  intros Hlast Hk Hfit.
+  destruct (vaxis_modes_facts t HM) as (Hawm & Hirm & Hss & Hdes & _ & _).
+  pose proof HW as [? ? ? ? Hrow Hcol ? ? ? Hleft Hright ? ? ? ?].
+  destruct (TP.WFs_active _ _ _ _ HW) as [Hlen HF].
+  destruct (TP.zget_ok (TP.row_ok w) (T.active t) (T.t_row t)) as [line [Hg [Hl HFl]]]; [lia | assumption |].
+  rewrite TR4.print_split; cbv zeta.
+  rewrite (TR4.shift_plain _ g (conj Hss Hdes)), Hss.
+  (* no wrap *)
+  assert (Ew : TR4.print_wrap k t = T.TOk t).
+  { unfold TR4.print_wrap; cbv zeta. rewrite Hlast, Hawm.
+    assert ((T.t_col t + k - 1 >? T.t_right t) = false) as -> by lia. reflexivity. }
+  rewrite Ew; cbn [T.tbind].
+  unfold TR4.print_place; cbv zeta. rewrite Hirm; cbn [T.tbind].
+  rewrite (TP.WFs_width e w h t HW), (TP.WFs_height e w h t HW).
+  assert ((T.t_col t >? w - 1) = false) as -> by lia. assert ((T.t_row t >? h - 1) = false) as -> by lia.
+  assert ((k =? 0) = false) as -> by lia.
+  set (cell := T.mkCell g k (T.t_pen t) false).
+  assert (Hf : zupd line (T.t_col t) cell = Some (upd_nat line (Z.to_nat (T.t_col t)) cell)).
+  { unfold zupd. destruct ((T.t_col t <? 0) || (zlen line <=? T.t_col t)) eqn:E; [lia|]. reflexivity. }
+  match goal with |- context[T.on_row t (T.t_row t) ?f0] =>
+    rewrite (TR.on_row_eval e w h t (T.t_row t) f0 line _ HW Hrow Hg Hf) end. cbn [T.tbind].
+  set (la := upd_nat line (Z.to_nat (T.t_col t)) cell).
+  assert (Hla : TP.row_ok w la).
+  { split; [unfold la; rewrite TR.zlen_upd_nat; assumption|]. apply TP.upd_nat_Forall; auto. unfold TP.cell_ok, cell; simpl; lia. }
+  set (t4 := T.set_active t (upd_nat (T.active t) (Z.to_nat (T.t_row t)) la)).
+  assert (Hg4 : TP.grid_ok w h (upd_nat (T.active t) (Z.to_nat (T.t_row t)) la)).
+  { split; [rewrite TR.zlen_upd_nat; assumption | now apply TP.upd_nat_Forall]. }
+  assert (W4 : TP.WFs0 e w h t4) by (apply TP.WFs_set_active; assumption).
+  assert (Hp4 : T.t_pen t4 = T.t_pen t) by apply TR3.t_pen_set_active.
+  assert (Ha4 : T.active t4 = upd_nat (T.active t) (Z.to_nat (T.t_row t)) la) by apply TR.active_set_active.
+  assert (Hz4 : zget (T.active t4) (T.t_row t) = Some la).
+  { rewrite Ha4, TR.zget_upd_nat by (unfold T.trow, T.grid in *; lia). rewrite Z.eqb_refl. reflexivity. }
+  assert (Hright4 : T.t_right t4 = w - 1) by (destruct W4; assumption).
+  rewrite Hright4, Hp4.
+  set (hi := Z.min (T.t_col t + k) (w - 1 + 1)).
+  assert (Hhi : hi = T.t_col t + k) by (unfold hi; lia).
+  set (lb := if T.t_col t + 1 <? hi then T.map_range (T.set_space (T.t_pen t)) (T.t_col t + 1) hi la else la).
+  assert (Hlb : TP.row_ok w lb).
+  { unfold lb. case_if; [|assumption]. destruct Hla as [Hla1 Hla2].
+    split; [rewrite TP.map_range_length; lia|]. apply TP.map_range_Forall; auto. intros c _; unfold TP.cell_ok; simpl; lia. }
+  assert (E5 : T.range_in_row t4 (T.t_row t) (T.set_space (T.t_pen t)) (T.t_col t + 1) hi
+               = T.TOk (T.set_active t (upd_nat (T.active t) (Z.to_nat (T.t_row t)) lb))).
+  { unfold T.range_in_row, lb. destruct (T.t_col t + 1 <? hi) eqn:E.
+    - assert (Hf5 : T.upd_range (T.set_space (T.t_pen t)) (T.t_col t + 1) hi la
+                    = Some (T.map_range (T.set_space (T.t_pen t)) (T.t_col t + 1) hi la)).
+      { unfold T.upd_range. rewrite E. destruct Hla as [Hla1 _].
+        destruct ((T.t_col t + 1 <? 0) || (zlen la <? hi)) eqn:E2; [lia|]. reflexivity. }
+      rewrite (TR.on_row_eval e w h t4 (T.t_row t) _ la _ W4 Hrow Hz4 Hf5).
+      unfold t4 at 1. rewrite TR3.set_active_twice, Ha4, TR3.upd_nat_twice. reflexivity.
+    - reflexivity. }
+  rewrite E5; cbn [T.tbind].
+  set (t5 := T.set_active t (upd_nat (T.active t) (Z.to_nat (T.t_row t)) lb)).
+  assert (Hg5 : TP.grid_ok w h (upd_nat (T.active t) (Z.to_nat (T.t_row t)) lb)).
+  { split; [rewrite TR.zlen_upd_nat; assumption | now apply TP.upd_nat_Forall]. }
+  assert (W5 : TP.WFs0 e w h t5) by (apply TP.WFs_set_active; assumption).
+  assert (Hmd5 : T.t_md t5 = T.t_md t) by apply TR3.t_md_set_active.
+  assert (Hc5 : T.t_col t5 = T.t_col t) by (unfold t5, T.set_active; destruct (T.t_onalt t); reflexivity).
+  assert (Hrt5 : T.t_right t5 = w - 1) by (destruct W5; assumption).
+  rewrite Hmd5, Hawm, Hc5, Hrt5. cbn [negb andb].
+  cbn [T.t_col T.t_right T.t_md T.set_col T.set_cursor]. rewrite Hmd5, Hawm, Hrt5, Bool.andb_true_r.
+  exists line, lb. split; [exact Hg|]. split; [exact Hlb|]. split.
+  - intros i. unfold lb. destruct (i =? T.t_col t) eqn:Ei.
+    + assert (i = T.t_col t) by lia; subst i. destruct Hla as [Hla1 _].
+      destruct (T.t_col t + 1 <? hi).
+      * rewrite TR.zget_map_range by lia. assert (((T.t_col t + 1 <=? T.t_col t) && (T.t_col t <? hi)) = false) as -> by lia.
+        unfold la. rewrite TR.zget_upd_nat by lia. rewrite Z.eqb_refl. reflexivity.
+      * unfold la. rewrite TR.zget_upd_nat by lia. rewrite Z.eqb_refl. reflexivity.
+    + destruct ((T.t_col t <? i) && (i <? T.t_col t + k)) eqn:Ein; [reflexivity|].
+      destruct Hla as [Hla1 _].
+      destruct (T.t_col t + 1 <? hi).
+      * rewrite TR.zget_map_range by lia. assert (((T.t_col t + 1 <=? i) && (i <? hi)) = false) as -> by lia.
+        unfold la. rewrite TR.zget_upd_nat by lia. rewrite Ei. reflexivity.
+      * unfold la. rewrite TR.zget_upd_nat by lia. rewrite Ei. reflexivity.
+  - cbv zeta. fold t5. assert ((T.t_col t + k >=? w - 1 + 1) = (T.t_col t + k >=? w)) as -> by lia. reflexivity.
+Qed.
+
+
+Lemma gget_upd (g : T.grid) r0 lb row col : 0 <= r0 < zlen g ->
+  gget (upd_nat g (Z.to_nat r0) lb) row col = if row =? r0 then zget lb col else gget g row col.
+Proof.
+  intros Hr. unfold gget. rewrite TR.zget_upd_nat by assumption. destruct (row =? r0); reflexivity.
+Qed.
+
+Lemma step_glyph g k : 1 <= k -> tm_col r + k <= tm_cols r ->
+  okstep e w h (T.print t g k) (put_glyph r g k).
+Proof.
+  intros Hk Hfit. destruct dims as [Dr Dc].
+  pose proof HR as [A1 A2 A3 A4 A5 A6 A7 A8].
+  destruct A5 as [(B1 & B2 & B3)|(B1 & _)]; [|lia].
+  destruct (print_fit g k B3 Hk ltac:(lia)) as (line & lb & Hg & Hlb & Hz & Hp).
+  cbv zeta in Hp. rewrite Hp. clear Hp.
+  pose proof HW as [? ? ? ? Hrow Hcol ? ? ? Hleft Hright ? ? ? ?].
+  destruct (TP.WFs_active _ _ _ _ HW) as [Hlen HF].
+  set (t5 := T.set_active t (upd_nat (T.active t) (Z.to_nat (T.t_row t)) lb)).
+  assert (Hg5 : TP.grid_ok w h (upd_nat (T.active t) (Z.to_nat (T.t_row t)) lb)).
+  { split; [rewrite TR.zlen_upd_nat; assumption | now apply TP.upd_nat_Forall]. }
+  assert (W5 : TP.WFs0 e w h t5) by (apply TP.WFs_set_active; assumption).
+  (* the reference step *)
+  unfold put_glyph. assert ((k <? 1) = false) as -> by lia.
+  assert ((tm_cols r <? tm_col r + k) = false) as -> by lia.
+  set (t' := if T.t_col t + k >=? w then T.set_col (T.set_last (T.set_col t5 (T.t_col t + k)) true) (w - 1)
+             else T.set_col t5 (T.t_col t + k)).
+  assert (Fr : T.t_md t' = T.t_md t /\ T.t_cs t' = T.t_cs t /\ T.t_top t' = T.t_top t /\ T.t_bot t' = T.t_bot t /\
+               T.t_pen t' = T.t_pen t /\ T.t_shape t' = T.t_shape t /\ T.t_row t' = T.t_row t /\
+               T.active t' = upd_nat (T.active t) (Z.to_nat (T.t_row t)) lb).
+  { unfold t', t5, T.set_active. destruct (T.t_col t + k >=? w); destruct (T.t_onalt t) eqn:Eo;
+      cbn; unfold T.active; cbn; rewrite ?Eo; repeat split; reflexivity. }
+  destruct Fr as (F1 & F2 & F3 & F4 & F5 & F6 & F7 & F8).
+  assert (Hh' : T.height t' = h) by (unfold T.height; rewrite F8, TR.zlen_upd_nat; assumption).
+  assert (Hw' : T.width t' = w).
+  { unfold T.width. rewrite F8. destruct Hg5 as [Hl5 HF5].
+    destruct (upd_nat (T.active t) (Z.to_nat (T.t_row t)) lb) as [|r0 g0]; [rewrite zlen_nil in Hl5; lia|].
+    inversion HF5 as [|? ? Hr0]; subst; apply Hr0. }
+  exists t'. split; [reflexivity|]. split.
+  { unfold t'. case_if.
+    - destruct W5. constructor; cbn; auto; lia.
+    - apply TP.WFs_set_col; [exact W5 | lia]. }
+  split.
+  { eapply vaxis_modes_frame; try exact HM; auto. rewrite Hh'. symmetry. apply (TP.WFs_height e w h t HW). }
+  constructor; cbn [tm_rows tm_cols tm_grid tm_row tm_col tm_pen tm_link tm_vis tm_shape set_cur set_grid].
+  - rewrite Hh'. congruence.
+  - rewrite Hw'. congruence.
+  - (* the grid *)
+    intros row col c. rewrite F8, gget_upd by (unfold T.trow, T.grid in *; lia).
+    rewrite <- A4.
+    destruct (row =? T.t_row t) eqn:Er.
+    + assert (row = T.t_row t) by lia; subst row. rewrite Hz. rewrite <- B2.
+      destruct (col =? T.t_col t) eqn:Ec.
+      * assert (col = T.t_col t) by lia; subst col. intros Hc; inversion Hc; subst c. clear Hc.
+        assert (((T.t_col t <=? T.t_col t) && (T.t_col t <? T.t_col t + k)) = true) as -> by lia.
+        unfold cell_rel. intros _. unfold ecell_shows, ecell_of. cbn [T.c_g T.c_w T.c_st].
+        replace (T.t_col t - T.t_col t) with 0 by lia. cbn [Z.eqb].
+        destruct A6 as [P1 [P2 P3]]. rewrite P1, P2.
+        rewrite zlist_eqb_refl, tpen_eqb_refl, tlink_eqb_refl. cbn [orb andb].
+        assert ((k =? Z.max 1 k) = true) as -> by lia. reflexivity.
+      * destruct ((T.t_col t <? col) && (col <? T.t_col t + k)) eqn:Ein.
+        { intros _. assert (((T.t_col t <=? col) && (col <? T.t_col t + k)) = true) as -> by lia.
+          unfold cell_rel. intros Hoff. lia. }
+        intros Hc.
+        assert (((T.t_col t <=? col) && (col <? T.t_col t + k)) = false) as -> by lia.
+        assert (Hold : cell_rel (tm_grid r (T.t_row t) col) c).
+        { apply A3. unfold gget. rewrite Hg. exact Hc. }
+        destruct (tm_grid r (T.t_row t) col) as [g0 w0 off0 p0 l0|]; [|exact I].
+        destruct (overlaps (col - off0) w0 (T.t_col t) k); [exact I | exact Hold].
+    + intros Hc. apply A3. exact Hc.
+  - rewrite F7. exact A4.
+  - (* the cursor *)
+    unfold t'. destruct (T.t_col t + k >=? w) eqn:Ew.
+    + right. cbn. repeat split; lia.
+    + left. cbn. unfold t5, T.set_active. destruct (T.t_onalt t); cbn; repeat split; try lia; exact B3.
+  - rewrite F5. exact A6.
+  - rewrite F1. exact A7.
+  - rewrite F6. exact A8.
+Qed.
+
+Lemma step_text g : 1 <= tw g -> tm_col r + tw g <= tm_cols r ->
+  okstep e w h (emu_toks tw t [KText g]) (interp1 tw r (KText g)).
+Proof.
+  intros H1 H2. unfold emu_toks. cbn [flat_map enc_tok app interp1 emu_feed T.update].
+  destruct (step_glyph g (tw g) H1 H2) as [t' [E H]]. rewrite E. cbn [T.tbind emu_feed]. exists t'; auto.
+Qed.
+
+Lemma step_space : tm_col r + 1 <= tm_cols r ->
+  okstep e w h (emu_toks tw t [KSpace]) (interp1 tw r KSpace).
+Proof.
+  intros H2. unfold emu_toks. cbn [flat_map enc_tok app interp1 emu_feed T.update].
+  destruct (step_glyph [32] 1 ltac:(lia) H2) as [t' [E H]]. rewrite E. cbn [T.tbind emu_feed]. exists t'; auto.
+Qed.
+
 End Steps.
+
+(* ------------------------------------------------------------------ one token, token lists *)
+
+Lemma existsb_In n l : existsb (Z.eqb n) l = true -> In n l.
+Proof. intros H. apply existsb_exists in H. destruct H as [x [Hx E]]. assert (n = x) by lia. now subst. Qed.
+
+(* emu_simulates_refterm: every token the renderer may write under term_caps, from every
+   well-formed emulator state in Vaxis' modes that holds what the reference terminal shows *)
+Theorem emu_simulates_refterm tw e w h t r k :
+  TP.WFs0 e w h t -> vaxis_modes t = true -> emu_rel t r -> step_ok tw r k ->
+  okstep e w h (emu_toks tw t [k]) (interp1 tw r k).
+Proof.
+  intros HW HM HR (Hal & Hok & Hfit).
+  destruct k; cbn [allowed term_caps cap_rgb cap_styled_ul cap_sync cap_explicit_width orb andb tok_ok fits] in *;
+    try discriminate.
+  - apply andb_prop in Hok; destruct Hok. now apply step_cup.
+  - now apply step_sgr_reset.
+  - apply step_fg; auto. lia.
+  - now apply step_bg.
+  - apply step_sgr; auto. now apply existsb_In.
+  - apply step_link; auto. now apply Bool.negb_true_iff.
+  - destruct Hfit. now apply step_text.
+  - now apply step_space.
+  - now apply step_show.
+  - now apply step_hide.
+  - apply step_shape; auto. lia.
+  - now apply step_mouse.
+Qed.
+
+Lemma emu_feed_app a : forall t b,
+  emu_feed t (a ++ b) = T.tbind (emu_feed t a) (fun t' => emu_feed t' b).
+Proof.
+  induction a as [|x a IH]; intros t b; cbn [app emu_feed]; [reflexivity|].
+  destruct (T.update t x); cbn [T.tbind]; auto.
+Qed.
+
+Theorem emu_simulates_refterm_list tw e w h : forall ks t r,
+  TP.WFs0 e w h t -> vaxis_modes t = true -> emu_rel t r -> toks_ok tw r ks ->
+  okstep e w h (emu_toks tw t ks) (interp tw r ks).
+Proof.
+  induction ks as [|k ks IH]; intros t r HW HM HR Hok.
+  - exists t. split; [reflexivity|]. split; [exact HW|]. split; [exact HM | exact HR].
+  - destruct Hok as [Hk Hrest].
+    destruct (emu_simulates_refterm tw e w h t r k HW HM HR Hk) as [t1 [E1 [W1 [M1 R1]]]].
+    unfold emu_toks in *. cbn [flat_map] in *. rewrite app_nil_r in E1.
+    rewrite emu_feed_app, E1. cbn [T.tbind].
+    unfold interp. cbn [fold_left]. apply (IH t1 (interp1 tw r k) W1 M1 R1 Hrest).
+Qed.
